@@ -689,6 +689,63 @@ func genMsgInput(t *rapid.T) wireCase {
 	}
 }
 
+// genManyRecords: one small record of a drawn type (every type the library has a decoder for, the
+// private type registered by the harness, unknown types) repeated hundreds to thousands of times -
+// the shape on which work or memory per record that grows with the position in the message
+// (re-scanning, copying the prefix) adds up to more than a fixed multiple of the input.
+func genManyRecords(t *rapid.T) wireCase {
+	types := append(append([]uint16{}, gen.AllTypes...), wm.TPrivate, 65281, wm.TOPT)
+	typ := rapid.SampledFrom(types).Draw(t, "mtype")
+	rec := gen.RecOfType(t, typ, &gen.Opts{Plain: true, MaxBlob: 6, NameGen: func(t *rapid.T) wm.Name {
+		return gen.Name(t, gen.NameOpts{Plain: true, MaxLabs: 2, MaxLabel: 4})
+	}})
+	switch rapid.IntRange(0, 2).Draw(t, "mowner") {
+	case 0:
+		rec.Name = wm.Name{}
+	case 1:
+		rec.Name = gen.Name(t, gen.NameOpts{Plain: true, MaxLabs: 3, MaxLabel: 6})
+	}
+	one, err := wm.EncodeRR(rec)
+	if err != nil || len(one) == 0 {
+		one = []byte{0, 0, 1, 0, 1, 0, 0, 0, 0, 0, 4, 1, 2, 3, 4}
+	}
+	if rec.Name.WireLen() > 2 && rapid.Bool().Draw(t, "mptr") {
+		// every owner after the first is a pointer to the first
+		first := append([]byte{}, one...)
+		rest := append([]byte{0xC0, 12}, one[rec.Name.WireLen():]...)
+		n := min(rapid.IntRange(100, 5000).Draw(t, "mcount"), (65535-12-len(first))/len(rest))
+		w := make([]byte, 12, 12+len(first)+n*len(rest))
+		w = append(w, first...)
+		for i := 0; i < n; i++ {
+			w = append(w, rest...)
+		}
+		return manyHeader(t, w, n+1, typ)
+	}
+	n := min(rapid.IntRange(100, 5000).Draw(t, "mcount"), (65535-12)/len(one))
+	w := make([]byte, 12, 12+n*len(one))
+	for i := 0; i < n; i++ {
+		w = append(w, one...)
+	}
+	return manyHeader(t, w, n, typ)
+}
+
+func manyHeader(t *rapid.T, w []byte, n int, typ uint16) wireCase {
+	a := rapid.IntRange(0, n).Draw(t, "man")
+	b := rapid.IntRange(0, n-a).Draw(t, "mns")
+	if rapid.Bool().Draw(t, "onesec") {
+		a, b = []int{n, 0, 0}[rapid.IntRange(0, 2).Draw(t, "which")], 0
+		if a == 0 && rapid.Bool().Draw(t, "nssec") {
+			b = n
+		}
+	}
+	binary.BigEndian.PutUint16(w[0:], 7)
+	w[2] = 0x84
+	binary.BigEndian.PutUint16(w[6:], uint16(a))
+	binary.BigEndian.PutUint16(w[8:], uint16(b))
+	binary.BigEndian.PutUint16(w[10:], uint16(n-a-b))
+	return wireCase{Input: w, Kind: "many-records:" + typeName(typ), Valid: true}
+}
+
 func genRRInput(t *rapid.T) wireCase {
 	var in []byte
 	kind := ""
@@ -860,49 +917,58 @@ func eachHeaderLength(emit func(hdrCase)) {
 
 // every type x every small integer value in all of its integer fields x short opaque fields:
 // field-value combinations that the decoder accepts must also print, measure, copy and re-pack
+// smallRec is a record of the type with every field set to a small value derived from k and l.
+func smallRec(typ uint16, k, l int) wm.Rec {
+	r := wm.Rec{Name: wm.Name{[]byte("x")}, Type: typ, Class: 1, TTL: uint32(k)}
+	layout, known := wm.Layout[typ]
+	if !known {
+		r.Fields = []wm.Field{{K: wm.Rest, B: bytes.Repeat([]byte{byte(k)}, l)}}
+		return r
+	}
+	for _, sp := range layout {
+		f := wm.Field{K: sp.K}
+		switch sp.K {
+		case wm.U8, wm.U16, wm.U32, wm.U48, wm.U64:
+			f.U = uint64(k)
+			if sp.Hint == "gwtype" || sp.Hint == "amtgwtype" {
+				f.U = uint64(k % 4)
+			}
+		case wm.NameC, wm.NameU:
+			f.N = wm.Name{[]byte("n")}
+		case wm.Str, wm.Rest, wm.L8, wm.L16:
+			f.B = bytes.Repeat([]byte{byte(k)}, l)
+		case wm.Strs:
+			f.L = [][]byte{bytes.Repeat([]byte{byte(k)}, l)}
+		case wm.IPv4:
+			f.B = []byte{byte(k), 0, 2, 1}
+		case wm.IPv6:
+			f.B = append([]byte{0x20, byte(k)}, make([]byte, 14)...)
+		case wm.Bitmap:
+			f.T = []uint16{uint16(k)}
+		case wm.GW:
+			f.U = uint64(k % 4)
+			switch f.U {
+			case 1:
+				f.B = []byte{192, 0, 2, byte(k)}
+			case 2:
+				f.B = append([]byte{0x20, 1}, make([]byte, 14)...)
+			case 3:
+				f.N = wm.Name{[]byte("g")}
+			}
+		case wm.HIPHdr:
+			f.U, f.B, f.B2 = uint64(k), bytes.Repeat([]byte{1}, l), bytes.Repeat([]byte{2}, l)
+		}
+		r.Fields = append(r.Fields, f)
+	}
+	return r
+}
+
 func eachSmallValue(emit func(wireCase)) {
 	types := append([]uint16{}, gen.AllTypes...)
 	for _, typ := range types {
-		layout := wm.Layout[typ]
 		for k := 0; k <= 40; k++ {
 			for _, l := range []int{0, 1, 2, 5, 6, 7} {
-				r := wm.Rec{Name: wm.Name{[]byte("x")}, Type: typ, Class: 1, TTL: uint32(k)}
-				for _, sp := range layout {
-					f := wm.Field{K: sp.K}
-					switch sp.K {
-					case wm.U8, wm.U16, wm.U32, wm.U48, wm.U64:
-						f.U = uint64(k)
-						if sp.Hint == "gwtype" || sp.Hint == "amtgwtype" {
-							f.U = uint64(k % 4)
-						}
-					case wm.NameC, wm.NameU:
-						f.N = wm.Name{[]byte("n")}
-					case wm.Str, wm.Rest, wm.L8, wm.L16:
-						f.B = bytes.Repeat([]byte{byte(k)}, l)
-					case wm.Strs:
-						f.L = [][]byte{bytes.Repeat([]byte{byte(k)}, l)}
-					case wm.IPv4:
-						f.B = []byte{byte(k), 0, 2, 1}
-					case wm.IPv6:
-						f.B = append([]byte{0x20, byte(k)}, make([]byte, 14)...)
-					case wm.Bitmap:
-						f.T = []uint16{uint16(k)}
-					case wm.GW:
-						f.U = uint64(k % 4)
-						switch f.U {
-						case 1:
-							f.B = []byte{192, 0, 2, byte(k)}
-						case 2:
-							f.B = append([]byte{0x20, 1}, make([]byte, 14)...)
-						case 3:
-							f.N = wm.Name{[]byte("g")}
-						}
-					case wm.HIPHdr:
-						f.U, f.B, f.B2 = uint64(k), bytes.Repeat([]byte{1}, l), bytes.Repeat([]byte{2}, l)
-					}
-					r.Fields = append(r.Fields, f)
-				}
-				w, err := wm.Encode(wm.Msg{ID: 1, Flags: wm.FlagQR, An: []wm.Rec{r}})
+				w, err := wm.Encode(wm.Msg{ID: 1, Flags: wm.FlagQR, An: []wm.Rec{smallRec(typ, k, l)}})
 				if err != nil {
 					continue
 				}
@@ -912,12 +978,36 @@ func eachSmallValue(emit func(wireCase)) {
 	}
 }
 
+// every type (the harness's registered private type and an unknown type included) x a message of
+// about 30000 octets filled with one small record of it, owners written as pointers to the first
+func eachTypeManyRecords(emit func(wireCase)) {
+	for _, typ := range append(append([]uint16{}, gen.AllTypes...), wm.TPrivate, 65281) {
+		one, err := wm.EncodeRR(smallRec(typ, 1, 1))
+		if err != nil {
+			continue
+		}
+		rest := append([]byte{0xC0, 12}, one[3:]...) // owner "x" is 3 octets
+		n := (30000 - 12 - len(one)) / len(rest)
+		w := make([]byte, 12, 30000)
+		w = append(w, one...)
+		for i := 0; i < n; i++ {
+			w = append(w, rest...)
+		}
+		binary.BigEndian.PutUint16(w[0:], 9)
+		w[2] = 0x84
+		binary.BigEndian.PutUint16(w[6:], uint16(n+1))
+		emit(wireCase{Input: w, Kind: "many-records:" + typeName(typ), Valid: true})
+	}
+}
+
 func init() {
 	pbt.RegisterEnum(pbt.Enum[wireCase]{Name: "every-type-small-values", Exhaustive: true, Each: eachSmallValue, Check: checkMsg})
+	pbt.RegisterEnum(pbt.Enum[wireCase]{Name: "every-type-many-records", Exhaustive: true, Each: eachTypeManyRecords, Check: checkMsg})
 	pbt.Register(pbt.Sub[hdrCase]{Name: "rr-with-header", Weight: 20, Gen: genWithHeader, Check: checkWithHeader})
 	pbt.RegisterEnum(pbt.Enum[hdrCase]{Name: "rr-with-header-every-length", Exhaustive: true, Each: eachHeaderLength, Check: checkWithHeader})
 	pbt.RegisterEnum(pbt.Enum[wireCase]{Name: "option-and-param-body-lengths", Exhaustive: true, Each: eachContainerLength, Check: checkMsg})
 	pbt.Register(pbt.Sub[wireCase]{Name: "msg-unpack", Weight: 40, Gen: genMsgInput, Check: checkMsg})
+	pbt.Register(pbt.Sub[wireCase]{Name: "many-small-records", Weight: 0.5, Gen: genManyRecords, Check: checkMsg})
 	pbt.Register(pbt.Sub[wireCase]{Name: "rr-unpack", Weight: 30, Gen: genRRInput, Check: checkRR})
 	pbt.Register(pbt.Sub[wireCase]{Name: "name-unpack", Weight: 30, Gen: genNameInput, Check: checkName})
 }
